@@ -41,6 +41,7 @@ LARGE = [(127, 120, 100), (255, 250, 17)]  # (R, H, N): long sequences x many pa
 
 def shards(tier, seed):
     L = S.max_len(tier)
+    LIFE = [{"lifecycle": [n]} for n in ['EditDistance', 'PrefixEditDistances']]
     out = [{"R": R, "H": H} for R in range(L + 1) for H in range(L + 1)]
     out += [{"large": list(x), "cost": c} for x in LARGE for c in ((1.0, 1.0, 1.0), (1.0, 0.5, 2.0))]
     # the same kind of instance with token ids >= 2^24, and through scripted / traced modules
@@ -50,7 +51,7 @@ def shards(tier, seed):
             {"large": [15, 17, 9], "cost": (2.0, 2.0, 2.0), "jit": True}]
     if tier == "thorough":
         out += [{"large": [511, 500, 9], "cost": (0.5, 1.0, 1.0)}, {"large": [63, 70, 300], "cost": (1.0, 2.0, 3.0)}]
-    return out
+    return LIFE + out
 
 
 def _large(ctx, R, H, N, cost, seed, id_offset=0, jit=False):
@@ -241,6 +242,9 @@ def _check_batch(ctx, pairs, ref, hyp, eos, include_eos, cost, tier, tag, module
 
 def run_shard(spec, tier, seed):
     ctx = Ctx()
+    if "lifecycle" in spec:
+        S.lifecycle_pass(ctx, spec["lifecycle"], seed)
+        return ctx
     if "large" in spec:
         for gs in S.GLOBAL_STATES:  # the same instance under every global torch state: results must not change
             sub = Ctx()
@@ -282,6 +286,9 @@ def run_shard(spec, tier, seed):
 
 def replay(case):
     ctx = Ctx()
+    if case.get("kind") == "lifecycle":
+        S.lifecycle_pass(ctx, [case["module"]], case.get("seed", 0))
+        return ctx
     if case.get("kind") == "large":
         _large(ctx, case["R"], case["H"], case["N"], tuple(case["cost"]), case["seed"], case.get("id_offset", 0),
                case.get("jit", False))
